@@ -1014,6 +1014,11 @@ fn fault_run(rng: &mut Rng, out: &mut Out, rec: &Arc<Recorder>, dir: &str, idx: 
         let (trace, w, flushes, _mem, reads_ok) = rehearse(plan, rec);
         let Some(w) = w else { continue };
         out.count("fault-run");
+        // the per-key event sequence under faults must still be one the durability automaton accepts
+        emit_dur_lines(out, &w, &trace);
+        if out.samples.len() < 2 {
+            out.samples.push(format!("fault plan {} on a {}-block device: {} device events, {} flush calls ({} acknowledged)", pname, w.blocks, trace.len(), flushes.len(), flushes.iter().filter(|f| f.0).count()));
+        }
         out.count(&format!("fault-{}", pname.split('#').next().unwrap_or("")));
         if !reads_ok {
             out.fail("C09", format!("fault plan {}: a read did not return the latest accepted value from memory", pname), "-");
@@ -1064,9 +1069,39 @@ fn writebehind_run(rng: &mut Rng, out: &mut Out, rec: &Arc<Recorder>, dir: &str,
     let nkeys = rng.range(8, 40);
     let keys: Vec<Vec<u8>> = (0..nkeys).map(|i| format!("w{}-{}", i, rng.below(100000)).into_bytes()).collect();
     let mut want: BTreeMap<Vec<u8>, Option<(u64, usize)>> = BTreeMap::new();
-    let burst = if rng.chance(1, 4) { 1200 } else { rng.range(1, 60) };
+    let store = Arc::new(store);
+    let mut burst = if rng.chance(1, 4) { 1200 } else { rng.range(1, 60) };
+    // a sustained burst from several threads: shards fill up (>= 1024 entries), every add_write then
+    // posts a wake-up of its own and the workers' bounded channels are full when the coordinator ticks
+    let heavy = rng.chance(1, 3);
+    if heavy {
+        out.count("writebehind-heavy-burst");
+        let stop = Arc::new(std::sync::atomic::AtomicBool::new(false));
+        let hs: Vec<_> = (0..4u64).map(|t| {
+            let st = store.clone();
+            let stop = stop.clone();
+            let mine: Vec<Vec<u8>> = keys.iter().enumerate().filter(|(i, _)| *i as u64 % 4 == t).map(|(_, k)| k.clone()).collect();
+            let mut r = Rng::new(rng.next() ^ (t + 1));
+            std::thread::spawn(move || {
+                let mut last: BTreeMap<Vec<u8>, Option<(u64, usize)>> = BTreeMap::new();
+                let mut n = 0u64;
+                while !stop.load(Ordering::Relaxed) && !mine.is_empty() {
+                    for k in &mine {
+                        let v = r.bytes(24);
+                        if st.insert(k, &v).is_ok() { last.insert(k.clone(), Some((fnv(&v), v.len()))); n += 1; }
+                    }
+                }
+                (last, n)
+            })
+        }).collect();
+        std::thread::sleep(std::time::Duration::from_millis(rng.range(250, 700)));
+        stop.store(true, Ordering::Relaxed);
+        for h in hs {
+            if let Ok((last, n)) = h.join() { want.extend(last); burst += n; }
+        }
+    }
     let start = std::time::Instant::now();
-    for i in 0..burst {
+    for i in 0..(if heavy { 0 } else { burst }) {
         let k = keys[(i % nkeys) as usize].clone();
         if rng.chance(1, 6) && want.get(&k).is_some_and(|x| x.is_some()) {
             if store.delete(&k).is_ok() { want.insert(k, None); }
@@ -1076,11 +1111,14 @@ fn writebehind_run(rng: &mut Rng, out: &mut Out, rec: &Arc<Recorder>, dir: &str,
             if store.insert(&k, &v).is_ok() { want.insert(k, Some((fnv(&v), v.len()))); }
         }
     }
-    // poll: rebuild the durable image from the trace until everything accepted is in it
+    // poll: rebuild the durable image from the trace until everything accepted is in it; then a second
+    // phase: a few more writes after the store went quiet must become durable by themselves as well
     let deadline = std::time::Duration::from_secs(20);
     let mut ok = false;
     let mut waited = 0u64;
     let mut last_bad: Vec<String> = vec![];
+    let mut phase = 0;
+    let mut start = start;
     while start.elapsed() < deadline {
         std::thread::sleep(std::time::Duration::from_millis(60));
         let trace: Vec<Ev> = rec.log.lock().unwrap().clone();
@@ -1100,8 +1138,20 @@ fn writebehind_run(rng: &mut Rng, out: &mut Out, rec: &Arc<Recorder>, dir: &str,
                 (w, g) => Some(format!("{} want={:?} recovered={:?}", hex(k), w.map(|x| x.1), g.map(|x| x.1))),
             }).collect();
             if good {
+                waited = waited.max(start.elapsed().as_millis() as u64);
+                if phase == 0 {
+                    phase = 1;
+                    out.count("writebehind-quiet-then-probe");
+                    for i in 0..rng.range(1, 5) {
+                        let k = format!("probe{}-{}", idx, i).into_bytes();
+                        let n = *rng.pick(&[20usize, 200, 3000]);
+                        let v = rng.bytes(n);
+                        if store.insert(&k, &v).is_ok() { want.insert(k, Some((fnv(&v), v.len()))); burst += 1; }
+                    }
+                    start = std::time::Instant::now();
+                    continue;
+                }
                 ok = true;
-                waited = start.elapsed().as_millis() as u64;
                 break;
             }
         }
@@ -1118,7 +1168,8 @@ fn writebehind_run(rng: &mut Rng, out: &mut Out, rec: &Arc<Recorder>, dir: &str,
         let ticks = rec.ticks.lock().unwrap().clone();
         eprintln!("C19 debug: writes={} fsyncs={} publishes={} visits={:?} ticks={:?}", nw, nf, np, visits, &ticks[..ticks.len().min(12)]);
         std::fs::write(&keep, format!("keys={} burst={}\nnot durable at the last probe:\n{}\n", nkeys, burst, last_bad.join("\n"))).unwrap();
-        out.fail("C19", format!("without an explicit flush, {} accepted writes over {} keys were not all durable after {:?}", burst, nkeys, deadline), &keep);
+        out.fail("C19", format!("without an explicit flush, {} accepted writes over {} keys were not all durable after {:?}{}", burst, nkeys, deadline,
+            if phase == 1 { " (the writes of the burst became durable; the ones issued after the store went quiet did not)" } else { "" }), &keep);
     }
     // ownership: after a forced flush every worker has visited every shard it owns
     rec.visits.lock().unwrap().clear();
